@@ -569,7 +569,8 @@ pub fn c13(tier: Tier) -> i32 {
 
 #[derive(Clone)]
 enum Expect {
-    Fails,
+    /// the build fails; the error text is part of what the caller observes
+    Fails(String),
     Streams(Vec<Vec<Tok>>),
 }
 
@@ -582,7 +583,7 @@ struct Key {
 fn expectation(cfg: &ScannerCfg, inputs: &[String]) -> Result<Expect, String> {
     match sut(|| cfg.build_uncached()) {
         Err(p) => Err(format!("sequential build panicked: {}", p)),
-        Ok(Err(_)) => Ok(Expect::Fails),
+        Ok(Err(e)) => Ok(Expect::Fails(e)),
         Ok(Ok(s)) => Ok(Expect::Streams(probe_streams(&s, cfg.modes.len(), inputs)?)),
     }
 }
@@ -725,12 +726,16 @@ pub fn c14_round(rng: &mut Rng, round: u64, st: &mut Stats, progress: &std::sync
                             let b = sut(|| if cached { key.cfg.build_cached() } else { key.cfg.build_uncached() });
                             match (b, &key.expect) {
                                 (Err(p), _) => Err(format!("thread {}: build panicked: {}", ti, p)),
-                                (Ok(Err(_)), Expect::Fails) => {
+                                (Ok(Err(e)), Expect::Fails(seq)) => {
                                     local.count("failing_builds_under_contention");
-                                    Ok(())
+                                    if &e != seq {
+                                        Err(format!("thread {}: {} fails with {:?}, the same call made sequentially fails with {:?}", ti, if cached { "build()" } else { "build_uncached()" }, e, seq))
+                                    } else {
+                                        Ok(())
+                                    }
                                 }
                                 (Ok(Err(e)), Expect::Streams(_)) => Err(format!("thread {}: {} failed ({}) but the same call succeeds sequentially", ti, if cached { "build()" } else { "build_uncached()" }, e)),
-                                (Ok(Ok(_)), Expect::Fails) => Err(format!("thread {}: {} succeeded but the same call fails sequentially", ti, if cached { "build()" } else { "build_uncached()" })),
+                                (Ok(Ok(_)), Expect::Fails(_)) => Err(format!("thread {}: {} succeeded but the same call fails sequentially", ti, if cached { "build()" } else { "build_uncached()" })),
                                 (Ok(Ok(sc)), Expect::Streams(exp)) => {
                                     local.count(if cached { "cached_builds" } else { "private_builds" });
                                     match probe_streams(&sc, key.cfg.modes.len(), inputs) {
